@@ -155,7 +155,7 @@ def run(ctx):
         ctx.evaluations += 1
         if v == 'fail':
             ctx.violation(case, 'regression corpus %s: %s' % (os.path.basename(path), why))
-    failures = hyp.fan_out(ctx, 'pylib.props.c11', 'gen_case', 160 if quick else 8000, extra={'tier': ctx.tier})
+    failures = hyp.fan_out(ctx, 'pylib.props.c11', 'gen_case', 300 if quick else 8000, extra={'tier': ctx.tier})
     seen = set()
     for f in failures:
         c = f['why'][:30]
